@@ -6,7 +6,7 @@ func adjust_axis(crs *SR, denorm bool, point []float64) ([]float64, error) {
 	var v float64
 	var t int
 	for i := 0; i < 3; i++ {
-		if denorm && i == 2 && len(point) == 2 {
+		if i == 2 && len(point) == 2 {
 			continue
 		}
 		if i == 0 {
